@@ -385,6 +385,7 @@ PURE_PREFIXES = (
     "<std::vec::Vec<T, A> as std::ops::Deref>::deref",
     "<std::path::PathBuf as std::ops::Deref>::deref",
     "<std::ffi::OsString as std::ops::Deref>::deref",
+    "std::cmp::PartialEq::", "std::cmp::PartialOrd::",
     "std::cmp::impls::<impl std::cmp::PartialEq",
     "std::cmp::impls::<impl std::cmp::PartialOrd",
     "core::str::traits::<impl std::cmp::PartialEq",
